@@ -1235,7 +1235,6 @@ func wdCases(tier string, seed int64) []wdCase {
 	return cases
 }
 
-
 // wdGridBytes builds the bytes of a grid case: an optional quiet get, the header, `avail` bytes.
 func wdGridBytes(op, kl, el int, total uint32, avail int, batch bool) (data []byte, prefix int, preload []string) {
 	if batch {
@@ -1412,14 +1411,22 @@ func wdServerRun(st *stack.Stack, data []byte, eof bool, deadline time.Duration,
 	for _, k := range preload {
 		st.L1.Put(k, fakemc.Entry{Data: []byte("old")})
 	}
+	if eof {
+		deadline = 120 * time.Second
+	} else {
+		// on a busy machine "nothing within the deadline" must still mean something: the deadline
+		// is at least 50 round trips of a trivial request
+		r0 := time.Now()
+		wdAlive(st)
+		if d := 50 * time.Since(r0); d > deadline {
+			deadline = d
+		}
+	}
 	st.L1.Arm()
 	t0 := time.Now()
 	conn, err := wdDial(st)
 	if err != nil {
 		return "crash", "dial: " + err.Error(), 0, false, 0
-	}
-	if eof {
-		deadline = 30 * time.Second
 	}
 	wdone := make(chan struct{})
 	go func() {
@@ -1512,6 +1519,34 @@ func wdVmSizeKB() int64 {
 	return 0
 }
 
+// wdDeclared is the size the input consistently declares (0 if none): a decoder may allocate that
+// much, and on this machine touching memory is slow, so when it is large the address space is
+// capped tightly for the step and the allocation fails at once (class "capped", judged by size).
+func wdDeclared(proto string, data []byte, prefix int) uint64 {
+	if proto == "text" {
+		i := bytes.IndexByte(data, '\n')
+		if i < 0 {
+			return 0
+		}
+		f := strings.Fields(string(data[:i]))
+		if len(f) == 5 {
+			if n, err := strconv.ParseUint(f[4], 10, 32); err == nil {
+				return n
+			}
+		}
+		return 0
+	}
+	d := data[prefix:]
+	if len(d) < 24 || d[0] != 0x80 {
+		return 0
+	}
+	tot := uint64(binary.BigEndian.Uint32(d[8:12]))
+	if tot < uint64(binary.BigEndian.Uint16(d[2:4]))+uint64(d[4]) {
+		return 0
+	}
+	return tot
+}
+
 type wdJob struct {
 	ID      string `json:"id"`
 	Proto   string `json:"proto"`
@@ -1520,6 +1555,7 @@ type wdJob struct {
 }
 
 const wdCapMargin = 512 << 20
+const wdTightMargin = 24 << 20
 
 // wdC11Worker executes the jobs of a file from a start position. The address space of the process
 // may grow by wdCapMargin only: a runaway allocation kills the process at once instead of taking
@@ -1531,6 +1567,17 @@ func wdC11Worker(a Args) {
 	limit := uint64(wdVmSizeKB())*1024 + wdCapMargin
 	lim := syscall.Rlimit{Cur: limit, Max: limit}
 	syscall.Setrlimit(syscall.RLIMIT_AS, &lim)
+	setCap := func(tight bool) uint64 {
+		l := syscall.Rlimit{Cur: limit, Max: limit}
+		if tight {
+			l.Cur = uint64(wdVmSizeKB())*1024 + wdTightMargin
+			if l.Cur > limit {
+				l.Cur = limit
+			}
+		}
+		syscall.Setrlimit(syscall.RLIMIT_AS, &l)
+		return l.Cur
+	}
 	rec, err := NewRec(a.Out)
 	must(err)
 	defer rec.Close()
@@ -1588,7 +1635,12 @@ func wdC11Worker(a Args) {
 			}
 			cur = i
 		}
-		rec.Emit(map[string]interface{}{"ev": "begin", "k": k, "i": i, "v": v, "limit_mb": int(limit >> 20)})
+		tight := wdDeclared(j.Proto, data, prefix) >= 32<<20 // more than the tight room: a death there is within the bound
+		if tight && st == nil && v >= 2 {
+			server() // the server's own start-up needs room
+		}
+		now := setCap(tight)
+		rec.Emit(map[string]interface{}{"ev": "begin", "k": k, "i": i, "v": v, "limit_mb": int(now >> 20), "room_kb": int((now - uint64(wdVmSizeKB())*1024) >> 10)})
 		eof := v == 0 || v == 2
 		ev := map[string]interface{}{"ev": "res", "k": k, "i": i, "v": v}
 		before := wdTotalAlloc()
@@ -1716,7 +1768,7 @@ func wdRunJobs(a Args, self, tag, sizes string, jobs []wdPlanned, stats map[stri
 		raw, _ := os.ReadFile(part)
 		os.Remove(part)
 		os.RemoveAll(dir)
-		pk, pi, pv, pending, limitMB := -1, -1, -1, false, 0
+		pk, pi, pv, pending, limitMB, roomKB := -1, -1, -1, false, 0, 0
 		for _, line := range bytes.Split(raw, []byte("\n")) {
 			if len(line) == 0 {
 				continue
@@ -1728,7 +1780,7 @@ func wdRunJobs(a Args, self, tag, sizes string, jobs []wdPlanned, stats map[stri
 			num := func(k string) int { f, _ := e[k].(float64); return int(f) }
 			switch e["ev"] {
 			case "begin":
-				pk, pi, pv, pending, limitMB = num("k"), num("i"), num("v"), true, num("limit_mb")
+				pk, pi, pv, pending, limitMB, roomKB = num("k"), num("i"), num("v"), true, num("limit_mb"), num("room_kb")
 			case "taint":
 				count("replaced_after_large_allocation")
 			case "res":
@@ -1764,15 +1816,20 @@ func wdRunJobs(a Args, self, tag, sizes string, jobs []wdPlanned, stats map[stri
 				first = es[:x]
 			}
 			ev["note"] = fmt.Sprintf("the process died (exit %d, address space limited to %d MiB): %s", code, limitMB, strings.ReplaceAll(wdTail(first, 400), "\n", " | "))
-			// "runtime: out of memory: cannot allocate N-byte block": N is what the decoder asked for
-			if x := strings.Index(es, "cannot allocate "); x >= 0 {
-				var nbytes uint64
-				fmt.Sscanf(es[x+len("cannot allocate "):], "%d-byte", &nbytes)
-				if nbytes > 0 {
-					// the death is the cap's doing; what counts is the size that was asked for
-					ev["class"], ev["alive"], ev["allockb"] = "capped", true, int((nbytes+1023)/1024)
-					count("allocations_stopped_by_cap")
+			// the cap did this; what counts is the size that was asked for:
+			// "runtime: out of memory: cannot allocate N-byte block" gives it, otherwise it was at
+			// least the room the process had left
+			if strings.Contains(es, "out of memory") {
+				kb := roomKB
+				if x := strings.Index(es, "cannot allocate "); x >= 0 {
+					var nbytes uint64
+					fmt.Sscanf(es[x+len("cannot allocate "):], "%d-byte", &nbytes)
+					if nbytes > 0 {
+						kb = int((nbytes + 1023) / 1024)
+					}
 				}
+				ev["class"], ev["alive"], ev["allockb"] = "capped", true, kb
+				count("allocations_stopped_by_cap")
 			}
 			b, _ := json.Marshal(ev)
 			out = append(out, b)
